@@ -7,7 +7,7 @@ Search = seeded interleavings (switch points are line/opcode events in repositor
 import random
 
 from .. import seeds, shrink
-from ..pool import Pool, unwrap
+from ..pool import Pool, Skips, unwrap
 from ..workload import gen_workload
 
 PROP = "C15"
@@ -160,13 +160,16 @@ def ref_fn(spec):
     return "checks.c15:job_cli_alone" if "cli" in spec else "pipeline:job_full"
 
 
-def ref_outcome(res, spec):
+def ref_outcome(res, spec, skips=None):
+    v = skips.take(res) if skips is not None else unwrap(res)
+    if v is None:
+        return None  # the alone-run hit the job time limit: the run is not judged
     if "cli" in spec:
-        return unwrap(res)
-    return unwrap(res)[spec["options"].get("structure", "flat")]
+        return v
+    return v[spec["options"].get("structure", "flat")]
 
 
-def ref_map(pool, specs, timeout=60):
+def ref_map(pool, specs, timeout=60, skips=None):
     """Alone-run outcomes of a list of pipeline specs (library pipelines and CLI commands)."""
     out = [None] * len(specs)
     for fn in ("pipeline:job_full", "checks.c15:job_cli_alone"):
@@ -174,7 +177,7 @@ def ref_map(pool, specs, timeout=60):
         if idx:
             res = pool.map(fn, [ref_job(specs[k]) for k in idx], timeout=timeout)
             for k, r in zip(idx, res):
-                out[k] = ref_outcome(r, specs[k])
+                out[k] = ref_outcome(r, specs[k], skips)
     return out
 
 
@@ -299,7 +302,8 @@ def run(ctx):
             for t, s in enumerate(r["specs"]):
                 flat.append(s)
                 index.append((i, t))
-        flat_refs = ref_map(pool, flat)
+        skips = Skips(limit=max(5, n_runs // 50))
+        flat_refs = ref_map(pool, flat, skips=skips)
         refs = [[None] * len(r["specs"]) for r in runs]
         for (i, t), ro in zip(index, flat_refs):
             refs[i][t] = ro
@@ -307,7 +311,9 @@ def run(ctx):
                        [{"specs": r["specs"], "sched": r["sched"]} for r in runs], timeout=150)
         reported = set()
         for i, (r, res) in enumerate(zip(runs, thr)):
-            res = unwrap(res)
+            res = skips.take(res)
+            if res is None or any(x is None for x in refs[i]):
+                continue  # time limit hit by the threaded run or by an alone-run: not judged
             evaluations += 1
             n = len(r["specs"])
             threads_hist[n] = threads_hist.get(n, 0) + 1
@@ -355,6 +361,7 @@ def run(ctx):
         "distinct_interleavings": len(distinct),
         "threads_histogram": {str(k): v for k, v in sorted(threads_hist.items())},
         "line_steps_total": steps_total, "runs_over_step_budget_not_preempted_to_the_end": skipped_over_budget,
+        "jobs_timed_out_not_judged": skips.timeouts,
         "switches_total": switches_total,
         "reach_probes_runs": probes,
         "reach_warnings": warn,
